@@ -119,13 +119,14 @@ Lemma stale_collection_harmless :
     lookup Z.eqb (it_tm it) (timers st) = Some x /\ tm_armed x = true.
 Proof. do 3 eexists. vm_compute. repeat split; reflexivity. Qed.
 
-(* 2. The guard is STILL necessary for the code as it is: a re-used id that meets NO item may be
-   re-used while another goroutine still holds the key.  Witness: the reader of the destination
-   connection has looked the originating item up for the final call res (timer stopped, copy
-   held); the caller cancels the call (cancel relayed: both items deleted, End) and re-uses the
-   id at once: admitted, a live item with an armed timer under the same key; the first reader goes
-   on with its stale copy and finishRelayItem deletes the LIVE item of the new call: release of an
-   active timer, Go panic "only stopped or completed timers can be released". *)
+(* 2. The schedule that refuted the unguarded statement before the fix "the relay finishes
+   (deletes) a relay item only if it still belongs to the call the frame path looked up": the
+   reader of the destination connection has looked the originating item up for the final call res
+   (timer stopped, copy held); the caller cancels the call (cancel relayed: both items deleted,
+   End) and re-uses the id at once: admitted, a live item with an armed timer under the same key;
+   the first reader goes on with its stale copy: finishRelayItem -> relayItems.deleteCall finds an
+   item of ANOTHER call (different destination-side id) and leaves it alone.  No panic; the
+   re-using call keeps its items and its armed timer. *)
 Definition cn_cf : config := {| cf_maxtombs := 30000; cf_cancel := true |}.
 Definition race_cancel : frame := {| f_mt := c_messageTypeCancel; f_id := 7; f_flags := 0; f_code := 0; f_wf := true |}.
 Definition ex_stale_finish : list label :=
@@ -133,8 +134,35 @@ Definition ex_stale_finish : list label :=
   [LArrive 1 race_res_last ex_env] ++ repeat (LStep (TR 1) true) 5 ++          (* parked after Receive's Get *)
   [LArrive 0 race_cancel ex_env] ++ repeat (LStep (TR 0) true) 14 ++           (* cancel relayed: both items deleted, End *)
   [LArrive 0 (ex_req 7) ex_env] ++ repeat (LStep (TR 0) true) 10 ++            (* id 7 re-used: admitted *)
-  repeat (LStep (TR 1) true) 4.                                                (* resumes: finishRelayItem on the new call's item *)
+  repeat (LStep (TR 1) true) 4.                                                (* resumes: finishRelayItem with the stale copy *)
+
+Lemma stale_finish_harmless :
+  exists st it x, run cn_cf init ex_stale_finish = Some st /\ panicked st = 0 /\
+    lookup key_eqb (0, 0, 7) (items st) = Some it /\ it_tomb it = false /\ it_call it = 2 /\
+    lookup Z.eqb (it_tm it) (timers st) = Some x /\ tm_armed x = true /\ c_pending (get_conn st 0) = 1.
+Proof. do 3 eexists. vm_compute. repeat split; reflexivity. Qed.
+
+(* 3. The guard is STILL necessary: failRelayItem looks the item up (Get, timer stopped) and
+   entombs BY ID in a second lock region, and with more than RelayMaxTombs tombstones Entomb
+   deletes by id at once.  Witness (RelayMaxTombs = 1, two earlier calls timed out: two
+   tombstones): the reader of the destination connection forwards a non-final call res into the
+   caller's full send queue and fails the call: failRelayItem's Get has stopped the originating
+   item's timer, its Entomb is still to come; the caller cancels the call (both items deleted,
+   End) and re-uses the id at once (admitted, live item, armed timer); the first reader's Entomb
+   finds too many tombstones and DELETES the live item of the new call: release of an active
+   timer, Go panic "only stopped or completed timers can be released". *)
+Definition tt_cf : config := {| cf_maxtombs := 1; cf_cancel := true |}.
+Definition race_res_more : frame := {| f_mt := c_messageTypeCallRes; f_id := 3; f_flags := 1; f_code := 0; f_wf := true |}.
+Definition ex_stale_fail : list label :=
+  [LArrive 0 (ex_req 5) ex_env] ++ repeat (LStep (TR 0) true) 10 ++ [LFire 2] ++ repeat (LStep (TT 2) true) 7 ++   (* tombstone 1 *)
+  [LArrive 0 (ex_req 6) ex_env] ++ repeat (LStep (TR 0) true) 10 ++ [LFire 4] ++ repeat (LStep (TT 4) true) 7 ++   (* tombstone 2 *)
+  [LArrive 0 (ex_req 7) ex_env] ++ repeat (LStep (TR 0) true) 10 ++
+  [LArrive 1 race_res_more ex_env] ++ repeat (LStep (TR 1) true) 7 ++
+  [LStep (TR 1) false; LStep (TR 1) true] ++                                   (* caller's queue full; failRelayItem's Get done *)
+  [LArrive 0 race_cancel ex_env] ++ repeat (LStep (TR 0) true) 14 ++           (* cancel relayed: both items deleted, End *)
+  [LArrive 0 (ex_req 7) ex_env] ++ repeat (LStep (TR 0) true) 10 ++            (* id 7 re-used: admitted *)
+  [LStep (TR 1) true].                                                         (* failRelayItem's Entomb: too many tombstones, Delete by id *)
 
 Lemma reuse_unguarded_refuted :
-  exists ls st, run cn_cf init ls = Some st /\ panicked st = panic_release_active.
-Proof. exists ex_stale_finish. eexists. split; vm_compute; reflexivity. Qed.
+  exists ls st, run tt_cf init ls = Some st /\ panicked st = panic_release_active.
+Proof. exists ex_stale_fail. eexists. split; vm_compute; reflexivity. Qed.
